@@ -7,6 +7,19 @@ import (
 func allChecks() []*Check {
 	return []*Check{
 		{
+			ID: "C13", Title: "Tracked state equals the server's ground truth for the client's channels",
+			Harnesses: []Harness{
+				{Pkg: "client", Func: "VerifC13Event", Quick: map[string]int{"NU": 1, "NC": 2}, Thorough: map[string]int{"NU": 2, "NC": 2},
+					Asserts: []string{"GetNick", "GetChannel", "IsOn", "Me", "tracked-sets", "invariant", "requests-issued", "requests-count"}},
+				{Pkg: "client", Func: "VerifC13Arbitrary", Quick: map[string]int{"NU": 1, "NC": 1, "NA": 2}, Thorough: map[string]int{"NU": 2, "NC": 2, "NA": 3},
+					Asserts: []string{"client-still-tracked", "no-channel-without-the-client", "no-user-without-shared-channel"}},
+			},
+			Bounds:      map[string]string{"quick": "pre-state: any conformant network state over the client + 1 other user x 2 channels (names 1 symbolic byte, privileges/modes/topics/details symbolic), tracker built directly as its view; one event of {own JOIN + NAMES with prefixes (+332, +324), other's JOIN (known/new), PART, KICK, QUIT, NICK, channel MODE (privilege / flags / +kl / -l), TOPIC, 352, own user MODE}; arbitrary lines: 15 handled verbs with source and 0..2 arguments drawn from the universe's names, fixed oddities or a symbolic byte", "thorough": "2 other users x 2 channels, 0..3 arguments"},
+			Outside:     []string{"larger universes (sessions are unbounded by induction over the conformant-state invariant)", "user modes inferred from WHO flags, -k followed by further arguments (as in the property)", "NAMES lists of more than three entries"},
+			Stubs:       []string{"tracker pre-state built directly in the heap by an exported harness bridge in package state", "reflect.DeepEqual structural model", "goroutines as coroutines"},
+			QuickBudget: 6 * time.Minute, ThorBudget: 40 * time.Minute,
+		},
+		{
 			ID: "C20", Title: "The connection password never reaches the log",
 			Harnesses: []Harness{
 				{Pkg: "client", Func: "VerifC20Password", Quick: map[string]int{"PL": 2}, Thorough: map[string]int{"PL": 4}, Asserts: []string{"password-not-in-log", "pass-line-masked", "masked-pass-line-logged-once", "something-was-logged"}},
@@ -55,7 +68,7 @@ func allChecks() []*Check {
 			ID: "C17", Title: "The client always knows its own current nick",
 			Harnesses: []Harness{
 				{Pkg: "client", Func: "VerifC17Step", Quick: map[string]int{"NL": 2}, Thorough: map[string]int{"NL": 3},
-					Asserts: []string{"asks-for-generated-nick", "config-me-non-nil", "me-non-nil", "me-is-servers-nick", "no-unprompted-nick-change"}},
+					Asserts: []string{"asks-for-generated-nick", "config-me-non-nil", "me-non-nil", "me-is-servers-nick", "no-unprompted-nick-change", "unaffected-by-old-nick-holder"}},
 				{Pkg: "client", Func: "VerifC17NewNick", Asserts: []string{"same-length", "same-prefix", "last-byte-differs"}},
 			},
 			Bounds:      map[string]string{"quick": "one server event {433 before the welcome, 001 same/different nick with/without nick!user@host, own NICK (both parameter forms), 433 after the welcome, NICK of another user} from any state satisfying 'Me().Nick = server's nick'; nicks 1..2 symbolic bytes; tracking on/off; default and custom (uninterpreted) generator; DefaultNewNick for all byte strings of length 1..3", "thorough": "nicks 1..3 bytes"},
